@@ -10,6 +10,7 @@ import (
 	"regexp"
 	"sort"
 	"strings"
+	"time"
 
 	"github.com/mimecast/dtail/verifharness/internal/vlib"
 )
@@ -409,7 +410,103 @@ func c16Handlers(r *vlib.Run) {
 	})
 }
 
+// c16E2EMulti: one coloured dcat connected to several servers which all stream
+// a long sequence of records at the same time, with the client's own log
+// messages (connection statistics and the like, log level info) mixed in: all
+// connections paint and log concurrently. Every record played must appear in
+// the output exactly once per server, unaltered after stripping the colours.
+func c16E2EMulti(r *vlib.Run) {
+	dir := r.Dir("c16multi")
+	hk := vlib.HostKey()
+	hkFile := filepath.Join(dir, "hostkey.pem")
+	os.WriteFile(hkFile, hk.PEM, 0600)
+	key := clientKey()
+	for round := 0; round < r.N(1, 5); round++ {
+		nPorts := 6
+		nMsgs := 25000
+		var stream bytes.Buffer
+		want := map[string]int{}
+		for k := 0; k < nMsgs; k++ {
+			sev := []string{"INFO", "WARN", "ERROR", "DEBUG"}[k%4]
+			text := fmt.Sprintf("%s|round %d record %06d of a busy stream with some payload to paint", sev, round, k)
+			rec := fmt.Sprintf("REMOTE|srv|100|%d|app.log|%s", k+1, text)
+			stream.WriteString(rec + "\n")
+			stream.WriteByte(0xAC)
+			want[rec] = nPorts
+		}
+		p := filepath.Join(dir, fmt.Sprintf("m%d.bin", round))
+		os.WriteFile(p, stream.Bytes(), 0644)
+		var ports []int
+		var servers []string
+		seen := map[int]bool{}
+		for len(ports) < nPorts {
+			q := vlib.FreePort()
+			if q != 0 && !seen[q] {
+				seen[q] = true
+				ports = append(ports, q)
+				servers = append(servers, fmt.Sprintf("127.0.0.1:%d", q))
+			}
+		}
+		f, err := startFakeSSHD(r, fmt.Sprintf("c16m-%d", round), ports, []string{hkFile}, p, 300)
+		if err != nil {
+			r.Inconclusive("fakesshd")
+			return
+		}
+		home, keyFile := r.ClientHome(fmt.Sprintf("c16m-%d", round), key)
+		args := []string{"--cfg", "none", "--trustAllHosts", "--logger", "stdout", "--logLevel", "info", "--key", keyFile, "--user", "tester",
+			"--servers", strings.Join(servers, ","), "--files", "/var/log/x.log"}
+		res := vlib.RunCmd(vlib.Cmd{Path: r.Bin("dcat"), Args: args, Env: []string{"HOME=" + home}, Dir: home, Watchdog: 240 * time.Second})
+		f.Stop()
+		os.Remove(p)
+		os.RemoveAll(home)
+		r.Eval(fmt.Sprintf("e2e-multi|%d", round))
+		r.Count("e2e_multi_server_runs", 1)
+		if res.TimedOut {
+			r.Inconclusive("client-watchdog")
+			continue
+		}
+		d := map[string]interface{}{"servers": nPorts, "records_per_server": nMsgs, "exit": res.Exit, "stderr": vlib.Trunc(string(res.Stderr), 1500)}
+		if res.Panicked() || res.Hung {
+			r.Violation("e2e-client-crash", d)
+			continue
+		}
+		got := map[string]int{}
+		other, clientLines := 0, 0
+		var strange []string
+		for _, l := range strings.Split(stripSGR(string(res.Stdout)), "\n") {
+			switch {
+			case l == "":
+			case strings.HasPrefix(l, "CLIENT|") || strings.HasPrefix(l, "SERVER|"):
+				clientLines++
+			case want[l] > 0:
+				got[l]++
+			default:
+				other++
+				if len(strange) < 5 {
+					strange = append(strange, vlib.Trunc(l, 200))
+				}
+			}
+		}
+		r.Count("e2e_multi_records_checked", len(got))
+		r.Count("e2e_multi_client_log_lines_between_records", clientLines)
+		missing, dup := 0, 0
+		for rec, n := range want {
+			if got[rec] < n {
+				missing += n - got[rec]
+			}
+			if got[rec] > n {
+				dup += got[rec] - n
+			}
+		}
+		if other > 0 || missing > 0 || dup > 0 {
+			d["lines_that_are_no_played_record"], d["examples"], d["records_missing"], d["records_in_excess"] = other, strange, missing, dup
+			r.Violation("e2e-colour-alters-text-with-several-servers", d)
+		}
+	}
+}
+
 func c16E2E(r *vlib.Run) {
+	c16E2EMulti(r)
 	n := r.N(36, 900)
 	rng := r.Rng("e2e")
 	dir := r.Dir("c16e2e")
